@@ -108,6 +108,8 @@ pub enum Op {
     Closest(u8),
     TakeApplied,
     Idle,
+    /// a third of the pending timeout passes (a pending candidate must still be pending)
+    PartIdle,
 }
 
 #[derive(Clone, Debug)]
@@ -274,6 +276,9 @@ impl TWorld {
         if self.cfg.timeout_s > 0 && self.cfg.timeout_s < 1_000_000 {
             ops.push(Op::Idle);
         }
+        if self.cfg.timeout_s >= 3 {
+            ops.push(Op::PartIdle);
+        }
         ops.into_iter().map(|o| (o, 0)).collect()
     }
 
@@ -395,6 +400,10 @@ impl TWorld {
             Op::Idle => {
                 clock::advance(Duration::from_secs(self.cfg.timeout_s + 1));
                 obs = "idle".into();
+            }
+            Op::PartIdle => {
+                clock::advance(Duration::from_secs(self.cfg.timeout_s / 3));
+                obs = "part-idle".into();
             }
         }
         let post = self.view();
@@ -795,7 +804,8 @@ pub fn run_c07_c08(prop: &str) {
     let mut configs = 0u64;
     let hots: Vec<usize> = if thorough { vec![255, 254, 128, 9] } else { vec![255] };
     let incs: Vec<usize> = if thorough { vec![0, 1, 2, 16] } else { vec![0, 2, 16] };
-    let timeouts: Vec<u64> = if thorough { vec![60, 0, 1_000_000_000] } else { vec![60, 0] };
+    // (3600 s and "never": also values a sanitising clamp would change)
+    let timeouts: Vec<u64> = if thorough { vec![3600, 0, 1_000_000_000] } else { vec![3600, 0] };
     let depth: usize = std::env::var("VERIF_DEPTH").ok().and_then(|v| v.parse().ok()).unwrap_or(if thorough { 4 } else { 3 });
     let depth = if with_c08 { depth - 1 } else { depth };
     let budget_wall = mc::budget(thorough, 40.0, 1.0);
@@ -806,6 +816,14 @@ pub fn run_c07_c08(prop: &str) {
         // service level: the configured limit reaches the table
         let (reports, svc) = crate::ssim::c07_service_level();
         rep.set("service_level_session_reports", reports);
+        for v in svc {
+            found.push((v, "service".into()));
+        }
+    }
+    if with_c08 {
+        // service level: the public API wrapper
+        let (calls, svc) = crate::ssim::c08_service_level();
+        rep.set("service_level_nodes_by_distance_calls", calls);
         for v in svc {
             found.push((v, "service".into()));
         }
